@@ -18,7 +18,8 @@ ATOL = 0.05
 TWO_IMAGES_TAG = "supercell-two-images-one-group"
 ATOLS = [0.05, 0.05, 0.05, 0.05, 0.001, 0.01, 0.2]
 RULE = ("base structures as in C02 (validated planted copies, per-atom perturbation <= atol/16; atol/40 for the hint runs); "
-        "atol drawn from {0.001, 0.01, 0.05, 0.2} per base structure; "
+        "atol drawn from {0.001, 0.01, 0.05, 0.2} per base structure; patterns incl. CH2FCl-/CH3F-like ones with symmetry-"
+        "related FIRST atoms, atoms listed copy by copy / slot-major / reversed / random; "
         "cells incl. 1, 2, 3 negative diagonal entries (alone or mixed with off-diagonal entries; every kind in a dedicated "
         "stream with the three half turns); relations: the whole crystal (cell + atoms) turned rigidly (half turns about the "
         "axes, quarter turns, arbitrary rational rotations); plain call (return_positions_and_quats=False); shift by a random vector (|components| <= 2 cell lengths) + fractional wrap; random atom permutation (a freshly built object, and the SAME Atoms object permuted in place between two searches); "
@@ -305,6 +306,34 @@ def run(ctx, oracle_only=False, scale=1):
             dims = rng.choice([(2, 1, 1), (1, 2, 1), (1, 1, 2)] if ctx.tier == "quick" and scale == 1 else
                               [(2, 1, 1), (1, 2, 1), (1, 1, 2), (2, 2, 1), (1, 2, 2), (2, 1, 2), (2, 2, 2)])
             check_rel(ctx, base, "replicate", list(dims), bk, pairs, len(pairs) < n_tie and rng.random() < 0.15)
+    # ---- patterns whose first atoms are symmetry-related (only some orderings rotatable), >= 2 copies: the key set must
+    # not depend on the listing order of the atoms (copy by copy vs. slot-major vs. random)
+    for i in range(ctx.n(9, 60) * scale):
+        pname = list(g.MIRROR_FIRST)[i % len(g.MIRROR_FIRST)]
+        case = None
+        for _ in range(20):
+            case = g.mirror_first_case(rng, atol=ATOL, pname=pname, mode=["slot-major", "random", "reversed"][i % 3])
+            if case is not None:
+                break
+        if case is None:
+            ctx.count("generator:rejected")
+            continue
+        base = base_of(case)
+        ctx.count("stream:symmetric-first-atoms")
+        bk = keys(real_search(base, seed=1))
+        if bk is None:
+            ctx.fail("the search raised", inp_of(base, "seed", 1), tags=["base"])
+            continue
+        n_at = len(base["elems"])
+        k_at = len(base["pattern"]["elems"])
+        v, order, pm = rand_params(rng, base)
+        # back to copy-by-copy order is one particular permutation; also a random one and slot-major of the current one
+        check_rel(ctx, base, "perm", order, bk, pairs, len(pairs) < n_tie and rng.random() < 0.3)
+        check_rel(ctx, base, "perm", list(range(n_at - 1, -1, -1)), bk, pairs, False)
+        check_rel(ctx, base, "perm", sorted(range(n_at), key=lambda a: (a % k_at, a)), bk, pairs, False)
+        check_rel(ctx, base, "perm-inplace", order, bk, pairs, False)
+        check_rel(ctx, base, "shift", v, bk, pairs, False)
+        check_rel(ctx, base, "seed", rng.randrange(3, 10 ** 6), bk, pairs, False)
     # ---- cells with 1, 2, 3 negative diagonal entries (also mixed with off-diagonal entries), every kind in turn: all
     # relations, and in particular the same crystal turned by half turns (which flips the signs of two diagonal entries)
     for i in range(ctx.n(8, 48) * scale):
